@@ -45,7 +45,7 @@ CHECKS["C06"] = ("SlottedCC.tla MinCost (least fixpoint over the partition's e-n
          "extracted terms are represented in the queried invocation, their recomputed cost equals the reported best cost and the specification's minimum, free slots are query arguments or brand-new", "5 C06")
 CHECKS["C05"] = ("EMatch.tla (declarative e-matching over the congruence of SlottedCC.tla: the complete set of admissible ground matches of every pattern, orbit-least form) + TLC exhaustive; every state replayed into the real EGraph: every substitution of ematch_all is grounded in the name pool, mapped to specification classes and must be a member of the specification's set (states without redundant slots); in every final state a 25-pattern / 20-multi-pattern pool is matched and every returned substitution is instantiated (harness representatives) and looked up; fingerprint before/after",
          "every reported match binds all variables, is a member of the specification's match set and denotes a represented term, multi-pattern equations hold between the bound classes, matching changes nothing", "5 C05")
-CHECKS["C14"] = ("SlottedCC.tla MinCost for astsize/depth = least fixpoint of make/merge; analysis (min size, min depth) read at every class after every call of every replayed path and compared",
+CHECKS["C14"] = ("SlottedCC.tla MinCost for astsize/depth and LeafOps (set of leaf operators, join = union) = least fixpoints of make/merge; three analyses (min size/depth, leaf operators) read at every class after every call of every replayed path and compared; EGraphOp.tla (operational model with update_analysis / pending types / join in move_to) checked by TLC to reach these fixpoints; TraceRewrite.tla: constant folding with its modify hook on recorded rewriting runs",
          "analysis data of every class equals the specification's least fixpoint after every call (min-size, min-depth); constant folding with modify hook: see level_note", "5 C14")
 NOTES_EXTRA = {"C14": CC_NOTE + " Constant-folding analysis (modify hook) is exercised by the rewrite recorder (rw_record) once built; until then only the two slot-independent lattices are covered."}
 CHECKS["C04"] = ("MC_Fire.tla (SlottedCC + Terms.Inst) + TLC: per rule, every set of balanced alias unions as state with Represented(l.sigma) decided by the closure; replay: build pre-state, apply_rewrites once, require r.sigma represented and equal; EMatch.tla + TLC: the complete set of ground matches of a 43-pattern pool in every state of the congruence universes, ematch_all must report every one of them (states without redundant slots); TraceRewrite.tla: in recorded apply_rewrites calls with several rules every instance matched in the state before the call is rewritten by the call",
@@ -84,7 +84,7 @@ man = {
  "engines": [
    {"name": "tlc-slottedcc", "path": "spec/SlottedCC.tla", "serves_properties": list(CHECKS.keys()),
     "kind_free_text": "explicit TLA+ specification (spec/*.tla) model-checked by TLC; REPLAY tables emitted per state"},
-   {"name": "tlc-egraphop", "path": "spec/EGraphOp.tla", "serves_properties": ["C08", "C12"],
+   {"name": "tlc-egraphop", "path": "spec/EGraphOp.tla", "serves_properties": ["C08", "C12", "C14"],
     "kind_free_text": "operational TLA+ model of the e-graph algorithm, model-checked by TLC to refine SlottedCC (generated root with the REPLAY table as constant)"},
    {"name": "tlc-extractop", "path": "spec/ExtractOp.tla", "serves_properties": ["C06"],
     "kind_free_text": "operational TLA+ model of the extraction work list, model-checked on all small e-graphs against the least-fixpoint cost"},
